@@ -46,19 +46,21 @@ TAB_CONSTS = {
     },
     'thorough': {
         'Els': '{"H","C","X"}',
-        'XPairs': '{<<100,200>>, <<150,300>>, <<130,400>>, <<100,250>>, <<160,310>>, <<110,120>>}',
-        'ResidTriples': '{<<1,1,1>>,<<1,1,2>>,<<1,2,1>>,<<1,2,2>>,<<1,2,3>>}',
-        'MolTriples': '{<<0,0,0>>,<<0,0,1>>,<<0,1,0>>,<<0,1,1>>,<<0,1,2>>}',
+        'XPairs': '{<<100,200>>, <<150,300>>, <<130,400>>, <<110,120>>}',
+        'ResidTriples': '{<<1,1,1>>,<<1,1,2>>,<<1,2,1>>,<<1,2,3>>}',
+        'MolTriples': '{<<0,0,0>>,<<0,0,1>>,<<0,1,0>>,<<0,1,2>>}',
         'ResnameTriples': '{<<"R","R","R">>,<<"U","U","U">>,<<"R","R","U">>}',
-        'NameTriples': '{<<"A","B","C">>,<<"A","C","B">>,<<"A","B","A">>,<<"C","A","Z">>,<<"B","-","A">>}',
-        'OldChoices': '{<<>>, << <<1,2>> >>, << <<1,3>> >>, << <<3,2>>, <<1,2>> >>}',
+        'NameTriples': '{<<"A","B","C">>,<<"A","C","B">>,<<"A","B","A">>,<<"C","-","Z">>}',
+        'OldChoices': '{<<>>, << <<1,2>> >>, << <<3,2>>, <<1,2>> >>}',
         'Modes': '{<<TRUE,TRUE>>,<<TRUE,FALSE>>,<<FALSE,TRUE>>,<<FALSE,FALSE>>}',
-        'Fudges': '{<<1,1>>,<<6,5>>,<<9,10>>}',
+        'Fudges': '{<<6,5>>,<<9,10>>}',
     },
 }
 # variants that only say "the result has several molecules / a single-atom molecule": sensitive on almost every input,
 # therefore not counted against a family's clause being the sole decider (except in their own families)
 SHAPE = {'allone', 'lose-isolated'}
+# dropping / loosening the distance conjunct: distinguished by every input with two atoms out of bonding range
+FAR = ['within', 'loose', 'se1900']
 FUDGES = [(1, 1), (6, 5), (13, 10), (11, 10), (3, 2), (5, 4)]
 FUDGES_LT1 = [(9, 10), (4, 5), (1, 2), (19, 20)]
 UNKNOWN_ELS = ['X', 'Xx', 'Q', '', '-']
@@ -294,7 +296,7 @@ class Gen:
         sc.block('KNA', ['P1', 'P2'], [['P1', 'P2']])
         return True, 'KNA'
 
-    def finish(self, rng, sc, family, target, name, dist, fu, focus=(0, 0), ordered=None, comp=()):
+    def finish(self, rng, sc, family, target, name, dist, fu, focus=(0, 0), ordered=None, comp=(), scope='edges'):
         n = len(sc.atoms)
         perm = list(range(1, n + 1))
         if ordered is None:
@@ -306,7 +308,7 @@ class Gen:
              'name': bool(name), 'dist': bool(dist), 'fn': fu[0], 'fd': fu[1]}
         f = [perm[focus[0] - 1], perm[focus[1] - 1]] if focus[0] else [0, 0]
         return {'sys': s, 'focus': {'a': f[0], 'b': f[1]}, 'family': family, 'target': target, 'ordered': ordered,
-                'comp': list(comp)}
+                'comp': list(comp), 'scope': scope}
 
     # -- the six conjuncts of the distance rule ---------------------------------------------------
     def f_radii(self, rng):
@@ -335,13 +337,13 @@ class Gen:
 
     def f_within_out(self, rng):
         lo, hi = rng.choice([(1.0005, 1.012), (1.0005, 1.012), (1.012, 1.2), (1.2, 3.0)])
-        return self._pair(rng, lo, hi, 'within-out', 'within', comp=['loose'])
+        return self._pair(rng, lo, hi, 'within-out', 'within', comp=FAR)
 
     def f_within_in(self, rng):
         return self._pair(rng, 0.988, 0.9995, 'within-in', 'tight', comp=['nofallback'])
 
     def f_selenium(self, rng):
-        return self._pair(rng, 1.3, 5.0, 'selenium', 'se1900', els=('Se', rng.choice(HEAVY)), comp=['within'])
+        return self._pair(rng, 1.3, 5.0, 'selenium', 'se1900', els=('Se', rng.choice(HEAVY)), comp=FAR)
 
     def f_nonedge(self, rng):
         sc = Scene()
@@ -357,7 +359,7 @@ class Gen:
         else:   # the block also has bonds, to a third atom placed out of bonding range of both
             sc.block('KNA', ['A', 'B', 'C'], [['A', 'B']] + ([['B', 'C']] if rng.random() < 0.5 else []))
             sc.add(rng.choice(HEAVY), plus(p, vec(rng, 700, 900)), resname='KNA', name='B')
-            comp = ['no-nameedges', 'atomcomp']
+            comp = ['no-nameedges'] + FAR
         return self.finish(rng, sc, 'nonedge', 'nonedge', True, True, fu, (a, b), comp=comp)
 
     def f_hh(self, rng):
@@ -369,9 +371,9 @@ class Gen:
         b = sc.add('H', plus(p, vec(rng, 50, 118 * fu[0] / fu[1])), resname=rn, name='Q2')
         return self.finish(rng, sc, 'hh', 'hh', name, True, fu, (a, b))
 
-    def _differ(self, rng):
+    def _differ(self, rng, comp=None):
         """attributes of a second residue that differs from (mol 0, 'A', 1, '', rn) in exactly one component"""
-        comp = rng.choice(['resid', 'chain', 'icode', 'resname', 'mol'])
+        comp = comp or rng.choice(['resid', 'chain', 'icode', 'resname', 'mol'])
         kw = {'resid': 1, 'chain': 'A', 'icode': '', 'mol': 0}
         if comp == 'resid':
             kw['resid'] = rng.choice([2, 0, -5, 100])
@@ -421,7 +423,8 @@ class Gen:
         for k in range(rng.randint(1, 4)):
             sc.add(rng.choice(UNKNOWN_ELS + HEAVY + ['H']), plus(p, (0, 0, 800 * k)), resid=k + 1, resname=rn,
                    name='Q1', mol=rng.choice([0, 0, k]))
-        return self.finish(rng, sc, 'partition', 'lose-isolated', name, rng.random() < 0.8, fu, comp=['allone'])
+        return self.finish(rng, sc, 'partition', 'lose-isolated', name, rng.random() < 0.8, fu,
+                           comp=['allone', 'no-resid', 'no-mol'] + FAR, scope='mols')
 
     def f_whole(self, rng):
         """a residue whose atoms are not bonded to each other stays in one molecule"""
@@ -436,7 +439,8 @@ class Gen:
             q = plus(p, (0, 0, 3000))
             sc.add('C', plus(p, vec(rng, 100, 150)), resid=2, resname=rn, name='Q1')
             sc.add('C', q, resid=3, resname=rn, name='Q1')
-        return self.finish(rng, sc, 'whole', 'atomcomp', name, True, fu, comp=comp)
+        return self.finish(rng, sc, 'whole', 'atomcomp', name, True, fu, comp=['allone', 'lose-isolated', 'no-resid'] + FAR,
+                           scope='mols')
 
     def f_connected(self, rng):
         """residues without a bond between them are different molecules, even from the same input molecule"""
@@ -450,7 +454,8 @@ class Gen:
             sc.add('C', q, resid=k + 1, resname=rn, name='Q1')
             if rng.random() < 0.6:
                 sc.add(rng.choice(['O', 'N', 'H']), plus(q, vec(rng, 90, 115)), resid=k + 1, resname=rn, name='Q2')
-        return self.finish(rng, sc, 'connected', 'allone', name, True, fu, comp=['no-resid', 'lose-isolated'])
+        return self.finish(rng, sc, 'connected', 'allone', name, True, fu, comp=['no-resid', 'lose-isolated', 'nofallback'] + FAR,
+                           scope='mols')
 
     def _reskey(self, rng, comp, kw, family, target):
         """two residues whose identity differs in one component only; three ways in which fusing them would show"""
@@ -477,21 +482,31 @@ class Gen:
                 q = plus(p, (0, 2500 * k, 0))
                 sc.add('C', q, resname=r, name='A', **k2)
                 sc.add('C', plus(q, vec(rng, 500, 800)), resname=r, name='B', **k2)
-            return self.finish(rng, sc, family, target, True, rng.random() < 0.7, fu, comp=['no-nameedges', 'atomcomp'])
+            return self.finish(rng, sc, family, target, True, rng.random() < 0.7, fu, comp=['no-nameedges'] + FAR)
         name, rn = self.neutral(rng, sc)
         rn2 = ('UNL' if rn == 'UNK' else 'UNK') if comp == 'resname' else rn
         sc.add(rng.choice(HEAVY), p, resname=rn, name='Q1')
         sc.add(rng.choice(HEAVY), plus(p, vec(rng, 900, 2000)), resname=rn2, name='Q1', **kw)
-        return self.finish(rng, sc, family, target, name, True, fu, comp=cmp_)
+        return self.finish(rng, sc, family, target, name, True, fu, comp=['allone', 'lose-isolated'] + FAR, scope='mols')
 
     def f_molidx(self, rng):
         return self._reskey(rng, 'mol', {'mol': 1}, 'molidx', 'no-mol')
 
-    def f_reskey(self, rng):
-        comp, kw = self._differ(rng)
-        while comp == 'mol':
-            comp, kw = self._differ(rng)
+    def _f_reskey(self, rng, comp):
+        comp, kw = self._differ(rng, comp)
         return self._reskey(rng, comp, kw, 'reskey-' + comp, 'no-' + comp)
+
+    def f_reskey_chain(self, rng):
+        return self._f_reskey(rng, 'chain')
+
+    def f_reskey_resid(self, rng):
+        return self._f_reskey(rng, 'resid')
+
+    def f_reskey_icode(self, rng):
+        return self._f_reskey(rng, 'icode')
+
+    def f_reskey_resname(self, rng):
+        return self._f_reskey(rng, 'resname')
 
     def f_oldkept(self, rng):
         sc = Scene()
@@ -502,7 +517,7 @@ class Gen:
         b = sc.add(rng.choice(HEAVY + ['H', 'X']), plus(p, vec(rng, 500, 2500)), resid=rng.choice([1, 2]), resname=rn,
                    name='Q2')
         sc.old.append([a, b])
-        return self.finish(rng, sc, 'oldkept', 'no-old', name, rng.random() < 0.7, fu, (a, b))
+        return self.finish(rng, sc, 'oldkept', 'no-old', name, rng.random() < 0.7, fu, (a, b), comp=FAR)
 
     def f_name_exact(self, rng):
         """block bonds between far atoms are made, block atoms that are absent are ignored, atoms the block does not
@@ -527,7 +542,7 @@ class Gen:
             q = sc.pos(idx[present[0]])
             sc.add('O', plus(q, vec(rng, 100, 140)), resname='KNA', name=rng.choice(['OXT', '-']))
         return self.finish(rng, sc, 'name-exact', 'no-nameedges', True, rng.random() < 0.7, fu,
-                           (idx[edges[0][0]], idx[edges[0][1]]), comp=['atomcomp', 'nofallback'])
+                           (idx[edges[0][0]], idx[edges[0][1]]), comp=FAR)
 
     def f_name_off(self, rng):
         """allow_name off: the block is ignored altogether (its bonds and its non-bonds)"""
@@ -539,7 +554,7 @@ class Gen:
         a = sc.add(e1, p, resname='KNA', name='A')
         sc.add('C', plus(p, vec(rng, 600, 900)), resname='KNA', name='B')
         c = sc.add(e2, plus(p, vec(rng, 80, self.thr(e1, e2, fu) * 0.97)), resname='KNA', name='C')
-        return self.finish(rng, sc, 'name-off', 'names-always', False, True, fu, (a, c))
+        return self.finish(rng, sc, 'name-off', 'names-always', False, True, fu, (a, c), comp=FAR)
 
     def f_fallback_unknown(self, rng):
         sc = Scene()
@@ -566,7 +581,7 @@ class Gen:
         sc.add(rng.choice(['C', 'X']), plus(p, vec(rng, 1200, 1500)), resname='KNA', name=dupname)
         if dupname == 'Z9':
             sc.add('C', plus(p, vec(rng, 1800, 2100)), resname='KNA', name='Z9')
-        return self.finish(rng, sc, 'fallback-dup', 'dup-as-named', True, True, fu, (a, c), comp=['nofallback'])
+        return self.finish(rng, sc, 'fallback-dup', 'dup-as-named', True, True, fu, (a, c), comp=['nofallback'] + FAR)
 
     def f_fallback_nodist(self, rng):
         sc = Scene()
@@ -678,7 +693,8 @@ class Gen:
 
 
 FAMILIES = ['radii', 'within_out', 'within_in', 'selenium', 'nonedge', 'hh', 'hacross', 'bonded',
-            'partition', 'whole', 'connected', 'molidx', 'reskey', 'oldkept', 'name_exact', 'name_off',
+            'partition', 'whole', 'connected', 'molidx', 'reskey_chain', 'reskey_resid', 'reskey_icode', 'reskey_resname',
+            'oldkept', 'name_exact', 'name_off',
             'fallback_unknown', 'fallback_dup', 'fallback_nodist', 'fallback_not_first', 'elem_gaps', 'fudge_lt1',
             'modes_off', 'random']
 
@@ -730,7 +746,9 @@ def judge_batch(batch, ev, vd, nshards):
                 raise tlc.MachineryError('no verdict for trace %d of a shard' % i)
             v, info = verdicts[i]
             fam = c['family']
-            st = stats.setdefault(fam, {'cases': 0, 'decisive': 0, 'sole': 0, 'target': c['target'], 'focus_failing': {}})
+            st = stats.setdefault(fam, {'cases': 0, 'decisive': 0, 'sole': 0, 'target': c['target'], 'focus_failing': {},
+                                        'scope': set(), 'companions': set()})
+            st['scope'].add(c['scope'])
             if v == 'unspecified-near-threshold':
                 skipped += 1
                 continue
@@ -749,10 +767,11 @@ def judge_batch(batch, ev, vd, nshards):
                 key = '+'.join(sorted(info['failing'])) or '(none)'
                 st['focus_failing'][key] = st['focus_failing'].get(key, 0) + 1
             if c['target']:
-                if c['target'] in sens:
+                scoped = sens if c['scope'] == 'mols' else set(info['sensE'])
+                if c['target'] in scoped:
                     st['decisive'] += 1
-                    allowed = {c['target']} | set(c['comp']) | (SHAPE if c['target'] not in SHAPE else set())
-                    if sens <= allowed:
+                    st['companions'] |= set(c['comp'])
+                    if scoped <= {c['target']} | set(c['comp']):
                         st['sole'] += 1
             if len(sens - SHAPE) >= 1:
                 ev.nontrivial_case(c['sys'])
@@ -760,6 +779,9 @@ def judge_batch(batch, ev, vd, nshards):
                 vd.violation('trace-rejected', {'kind': 'trace', 'sys': c['sys'], 'got': c['got'], 'focus': c['focus'],
                                                 'family': fam, 'verdict': v}, '%s (family %s)' % (v, fam))
     ev.tlc_runs.append({'run': 'TRACE Trace_Bonds', 'events': len(batch), 'shards': len(shards), 'wall_s': round(wall, 1)})
+    for st in stats.values():
+        st['companions'] = sorted(st['companions'])
+        st['scope'] = '/'.join(sorted(st['scope']))
     return stats, sole_pairs, sens_count, skipped
 
 
@@ -781,7 +803,11 @@ def run(tier, seed, ev, vd):
                'molecules x residue names x atom names x old bonds x 4 modes x fudge). TRACE: generator families, one per '
                'conjunct of the distance rule and per clause of the partition. Non-trivial = TLC finds at least one '
                'dropped-clause variant (other than "all atoms one molecule" / "single atoms dropped") whose result '
-               'differs from the property\'s on that input; distinct by input.')
+               'differs from the property\'s on that input; distinct by input. Per family the evidence gives: cases, '
+               'decisive = the family\'s clause (variant `target`) is distinguished by the input (scope edges: bonds / '
+               'distance attributes differ; scope mols: the result differs), sole = nothing but the target and its listed '
+               'companions (variants logically entailed by the construction) is distinguished, focus_failing = set of failing '
+               'conjuncts of the aimed pair as computed by TLC.')
     ev.assumptions = [
         'TLC evaluates the TLA+ operators correctly',
         'coordinates on a 10 pm lattice; pairs whose squared distance is within 1e-6 (relative) of the squared threshold '
@@ -817,7 +843,7 @@ def run(tier, seed, ev, vd):
     ev.sample({'kind': 'TAB state replayed into MakeBonds.run_system',
                'state': next((s for s in states if len(s['out']['dist']) >= 1 and len(s['out']['mols']) >= 2), states[0])})
     # ---- TRACE
-    per = 24 if quick else 800
+    per = 22 if quick else 700
     nrandom = 260 if quick else 6000
     plan = [f for f in FAMILIES if f != 'random' for _ in range(per)] + ['random'] * nrandom
     random.Random(seed).shuffle(plan)
@@ -832,6 +858,12 @@ def run(tier, seed, ev, vd):
         if st['target'] and st['decisive'] < max(3, 0.5 * st['cases']):
             raise tlc.MachineryError('vacuous family %s: clause %s decisive in %d of %d cases' % (
                 fam, st['target'], st['decisive'], st['cases']))
+    for fam, conj in (('radii', 'radii'), ('within-out', 'within'), ('nonedge', 'nonedge'), ('hh', 'hh'),
+                      ('hacross', 'hacross'), ('bonded', 'bonded'), ('within-in', '(none)')):
+        st = stats[fam]
+        if st['focus_failing'].get(conj, 0) < 0.9 * st['cases']:
+            raise tlc.MachineryError('family %s: %s is the sole failing conjunct of the aimed pair in only %d of %d cases' % (
+                fam, conj, st['focus_failing'].get(conj, 0), st['cases']))
     missing = [c for c in ('radii', 'within', 'nonedge', 'hh', 'hacross', 'bonded') if sole_pairs.get(c, 0) == 0]
     if missing:
         raise tlc.MachineryError('no pair with sole failing conjunct %s' % missing)
